@@ -35,7 +35,10 @@ RULE = ("part 1 exhaustive over scenarios = (services in the configuration, Comp
         "and under a takeover), and again while the implementations of one connected protocol raise NotSupportedError / "
         "ProtocolError when called (the error must reach the caller, nobody else may execute the call); Companion's REAL "
         "connect callable against a fake device, every request of its connect sequence rejected in turn; non-trivial = the call is not served by the first connected protocol of the plain "
-        "priority list. part 2: random histories of takeover/release (>=30% failing takeovers by construction) interleaved "
+        "priority list. part 1b: the same device object with SYNTHETIC protocol classes: every protocol implementing every "
+        "member for all 31 sets (each priority list exercised in full) and random implementation tables, the classes built in "
+        "five shapes (direct subclass, implementation inherited from an intermediate class, through two levels, provided by a "
+        "mixin, overridden at two levels), compared with the generic model on those tables and with the oracle. part 2: random histories of takeover/release (>=30% failing takeovers by construction) interleaved "
         "with state updates; non-trivial = history with at least one failing takeover and one release; "
         "distinct = (scenario, holder, member incl. argument variant) / (scenario, holder, publisher) resp. (scenario, op list)")
 ASSUMPTIONS = [
